@@ -255,6 +255,10 @@ def run(ctx, selftest=False):
     ctx.sample(traces[0]); ctx.sample(traces[-1])
     verdicts = ctx.validate("RVDataTrace", traces)
     ctx.judge(traces, verdicts, families=("C15.",))
+    # the data set under every short HISTORY of calls (spec/History.tla): plotting, merging, slicing, a second construction from the
+    # caller's own arrays - the observations, their pairing and the reference epoch may depend on the content only
+    from .. import history
+    history.check(ctx, "data", {"C15"}, ("C15.", "H."), selftest=selftest)
     if selftest or not quick:
         _selftest(ctx, traces)
 
